@@ -39,9 +39,9 @@ def macros(U):
                      " and forall(t, 0, len(chan(p).chunk[j]), chan(p).chunk[j][t] == p.X[p.coff[j] + t]), trigger=chan(p).chunk[j])"
                      " and implies(not p._sending_work, p._data_cnt == chan(p).sent and p.coff[chan(p).sent] == len(p.X))"
                      " and p.feeder != None and p.feeder.done == (not p._sending_work)"
-                     # pigeonhole facts of the channel model (assumed at get, kept by every put)
-                     " and chan(p).nrecv <= chan(p).sent"
-                     " and implies(chan(p).nrecv == chan(p).sent, forall(i, 0, chan(p).sent, chan(p).recv[i]))")
+                     # counting invariant of the channel: nrecv is the number of received indices, none at or beyond `sent`
+                     " and chan(p).nrecv == rcnt(chan(p).recv, chan(p).sent)"
+                     " and forall(i, implies(chan(p).recv[i], 0 <= i and i < chan(p).sent), trigger=chan(p).recv[i])")
     # two-state: the step of the feeder thread (old = before)
     U.define("R", ["p"], "same(p._work_queue, old(p._work_queue)) and same(p._results_queue, old(p._results_queue))"
                      " and same(chan(p), old(chan(p))) and same(p.X, old(p.X)) and same(p.feeder, old(p.feeder))"
@@ -103,6 +103,7 @@ def declare(U):
     m.ghost_exit("pool.X = data")
     m.ghost_exit("pool.coff = lam(i, 0)")
     m.ghost_exit("pool.feeder = self")
+    m.use_exit("unfold('rcnt', pool._work_queue.chan.recv, 0)")
     m.ensures("self.pool == pool and same(self.data, data) and self.chunk_size == chunk_size and same(pool.X, data)")
     m.ensures("self.stop_event != None and self.run_event != None and not self.stop_event.isset and not self.started and not self.done")
     m.ensures("fresh(self.stop_event) and fresh(self.run_event)")
@@ -123,6 +124,7 @@ def declare(U):
                "self.pool.coff", "self.done", "self.run_event.isset")
     m.ensures("self.pool._work_queue.stops == old(self.pool._work_queue.stops)", "the-feeder-puts-no-stop-token")
     m.ghost_at_write("_sending_work", "self.done = not _value")
+    m.at_call("after", "put", use="unfold('rcnt', chan(self.pool).recv, chan(self.pool).sent)")
     lp = m.loop(1).environment_driven()
     CHS = "_seq1"
     lp.invariant("same(self.pool, old(self.pool)) and wfpool(%s) and same(%s._work_queue, old(%s._work_queue)) and same(chan(%s), old(chan(%s)))"
@@ -134,6 +136,9 @@ def declare(U):
     lp.invariant("len(%s) == len(g_ys_chunking) and forall(j, 0, len(%s), %s[j][0] == j and %s[j][1] == g_ys_chunking[j])" % (CHS, CHS, CHS, CHS))
     lp.invariant("forall(j, 0, _i1 + 1, %s.coff[j] == g_coff[j], trigger=%s.coff[j])" % (p, p), "ghost-offsets-follow-the-chunking")
     lp.invariant("forall(j, 0, _i1, chan(%s).chunk[j] == g_ys_chunking[j], trigger=chan(%s).chunk[j])" % (p, p), "chunk-j-was-sent-under-index-j")
+    lp.invariant("chan(%s).nrecv == rcnt(chan(%s).recv, chan(%s).sent)"
+                 " and forall(i, implies(chan(%s).recv[i], 0 <= i and i < chan(%s).sent), trigger=chan(%s).recv[i])" % ((p,) * 6),
+                 "counting-invariant-of-the-channel")
     lp.ghost_at_begin("self.pool.coff = aset(self.pool.coff, _i1, g_coff[_i1])")      # here _i1 already counts the chunk just taken
     m.ensures("not %s._sending_work and self.done" % p, "feeder-done")
     m.ensures("J(%s)" % p)
@@ -146,6 +151,8 @@ def declare(U):
     m.witness("pos", ArrS(INT, INT), bound_to="g_pos")
     m.ghost_entry("g_pos = lam(i, 0 - 1)")
     m.ghost_entry("g_n = 0")
+    m.at_call("before", "get", ghost="g_r0 = chan(self).recv")
+    m.at_call("after", "get", use="lemma_inst('rc_one_more', g_r0, chan(self).recv, result[0], chan(self).sent)")
     m.at_call("after", "get", ghost="g_pos = aset(g_pos, result[0], g_n)")
     m.at_call("after", "get", ghost="g_n = g_n + 1")
     batch = lambda I, C, pos: (
@@ -241,6 +248,8 @@ def unordered(U, P):
               " and forall(p, uoff[a], uoff[a + 1], yielded[p] == F(data[self.coff[ord[a]] + p - uoff[a]]), trigger=yielded[p]), trigger=ord[a])" % (n, n),
               "output=concatenation-of-f-mapped-chunks-in-arrival-order(order-inside-each-chunk-kept)")
     m.ensures("idle(self)", "call-idle-again:nothing-left-in-flight,feeder-done(consecutive-calls-are-independent)")
+    m.use_exit("lemma_inst('rc_bounds', chan(self).recv, chan(self).sent)")
+    m.use_exit("lemma_inst('rc_full', chan(self).recv, chan(self).sent)")
     return m
 
 
@@ -320,7 +329,8 @@ def unit():
     U.verify("FunctorPool", "imap_unordered")
     U.assume("demonic queue environment (poolenv / ownenv): any arrival order / timing / number of workers / queue bounds; queues deliver "
              "every item exactly once; the worker loop body (c04_worker) turns (i, c) into exactly one (i, [f(x) for x in c])")
-    U.assume("pigeonhole facts of the channel model (received <= sent; all received when the counts agree) are assumed, not proved")
+    U.assume("the channel's counting invariant (nrecv = number of received indices below sent) is part of J; the pigeonhole facts used at the loop "
+             "exit of imap_unordered are the lemmas rc_bounds / rc_full, proved by induction (ownenv.counting)")
     U.assume("f is pure and total; the input iterable is a finite sequence evaluated lazily by chunking only; full consumption of the "
              "generator (abandoned generators are outside the quantifier)")
     U.assume("sequential consistency of attribute reads / writes under the GIL (each read sees some earlier write: covered by the "
